@@ -436,3 +436,122 @@ Proof.
   intro N. destruct n as [|[|n]]; [| |lia]; eexists; vm_compute; reflexivity.
 Qed.
 End Flat.
+
+(* ------------------------------------------------------------------ *)
+(* the grid                                                            *)
+(* ------------------------------------------------------------------ *)
+Lemma mem_str_In k l : mem_str k l = true <-> In k l.
+Proof.
+  induction l as [|x l IH]; cbn; [split; [discriminate|tauto]|].
+  rewrite orb_true_iff, IH. destruct (String.eqb_spec k x); split; intros [H|H]; auto; try discriminate.
+  all: try (subst; contradiction).
+Qed.
+Lemma mem_str_notIn k l : ~ In k l -> mem_str k l = false.
+Proof. intro H. destruct (mem_str k l) eqn:E; [|reflexivity]. apply mem_str_In in E. contradiction. Qed.
+
+Lemma nodup_inj_seq (f : nat -> string) a n :
+  (forall i j, f i = f j -> i = j) -> nodup_str (map f (seq a n)) = true.
+Proof.
+  intro Inj. revert a. induction n as [|n IH]; intro a; cbn [seq map nodup_str]; [reflexivity|].
+  rewrite IH, andb_true_r. apply negb_true_iff, mem_str_notIn. intro H.
+  apply in_map_iff in H. destruct H as [j [E J]]. apply Inj in E. apply in_seq in J. lia.
+Qed.
+
+Definition g2 (p : nat * nat) : string := mname2 (fst p) (snd p).
+Definition pairs_from (a rows cols : nat) : list (nat * nat) :=
+  flat_map (fun r => map (fun c => (r, c)) (range cols)) (seq a rows).
+Lemma pairs_is_from rows cols : pairs rows cols = pairs_from 0 rows cols.
+Proof. reflexivity. Qed.
+
+Lemma in_pairs_from a rows cols r c :
+  In (r, c) (pairs_from a rows cols) <-> (a <= r < a + rows)%nat /\ (c < cols)%nat.
+Proof.
+  unfold pairs_from, range. rewrite in_flat_map. split.
+  - intros [x [X I]]. apply in_map_iff in I. destruct I as [y [E Y]]. injection E as -> ->.
+    apply in_seq in X. apply in_seq in Y. lia.
+  - intros [R C]. exists r. split; [apply in_seq; lia|]. apply in_map_iff. exists c. split; [reflexivity|].
+    apply in_seq. lia.
+Qed.
+Lemma in_g2_pairs a rows cols r c :
+  In (mname2 r c) (map g2 (pairs_from a rows cols)) <-> (a <= r < a + rows)%nat /\ (c < cols)%nat.
+Proof.
+  rewrite in_map_iff. split.
+  - intros [[r' c'] [E I]]. unfold g2 in E. cbn [fst snd] in E. apply mname2_inj in E. destruct E as [-> ->].
+    apply in_pairs_from. exact I.
+  - intro H. exists (r, c). split; [reflexivity|]. apply in_pairs_from. exact H.
+Qed.
+
+Lemma nodup_pairs a rows cols : nodup_str (map g2 (pairs_from a rows cols)) = true.
+Proof.
+  revert a. induction rows as [|n IH]; intro a; [reflexivity|].
+  unfold pairs_from. cbn [seq flat_map]. fold (pairs_from (S a) n cols).
+  rewrite map_app, nodup_str_app, IH, andb_true_r. apply andb_true_iff. split.
+  - rewrite map_map. unfold g2, range. cbn [fst snd]. apply nodup_inj_seq.
+    intros i j E. apply mname2_inj in E. tauto.
+  - apply forallb_forall. intros k K. apply negb_true_iff, mem_str_notIn. intro H.
+    apply in_map_iff in K. destruct K as [[r c] [<- K]]. apply in_map_iff in K. destruct K as [c' [E _]].
+    injection E as <- <-. unfold g2 in H. cbn [fst snd] in H. apply in_g2_pairs in H. lia.
+Qed.
+
+Lemma map_flat_map {A B C} (f : B -> C) (g : A -> list B) l :
+  map f (flat_map g l) = flat_map (fun x => map f (g x)) l.
+Proof. induction l as [|x l IH]; cbn; [reflexivity|]. rewrite map_app, IH. reflexivity. Qed.
+Lemma forallb_flat_map {A B} (f : B -> bool) (g : A -> list B) l :
+  (forall x, In x l -> forallb f (g x) = true) -> forallb f (flat_map g l) = true.
+Proof.
+  induction l as [|x l IH]; cbn; [reflexivity|]. intro H. rewrite forallb_app, (H x (or_introl eq_refl)), IH; auto.
+Qed.
+
+Definition grid_entries (rows cols : nat) : list entry :=
+  map (fun p => (g2 p, @None (Qc * Qc))) (pairs rows cols).
+Definition pair_edge2 (a b : nat * nat) : wedge := ([g2 a; g2 b], None).
+Definition grid_wedges (rows cols : nat) : list wedge :=
+  flat_map (fun r => map (fun c => pair_edge2 (r, c) (r, S c)) (range (cols - 1))) (range rows)
+  ++ flat_map (fun r => map (fun c => pair_edge2 (r, c) (S r, c)) (range cols)) (range (rows - 1)).
+
+Lemma fst_grid_entries rows cols : map fst (grid_entries rows cols) = map g2 (pairs rows cols).
+Proof. unfold grid_entries. rewrite map_map. reflexivity. Qed.
+
+Lemma pair_edge2_ok rows cols a b :
+  (fst a < rows)%nat -> (snd a < cols)%nat -> (fst b < rows)%nat -> (snd b < cols)%nat ->
+  edge_ok (map g2 (pairs rows cols)) (pair_edge2 a b) = true.
+Proof.
+  intros. destruct a as [r c], b as [r' c']. cbn [fst snd] in *.
+  unfold edge_ok, pair_edge2, weight_of. cbn [fst snd List.length known_all].
+  change (g2 (r, c)) with (mname2 r c). change (g2 (r', c')) with (mname2 r' c').
+  rewrite pairs_is_from.
+  rewrite (proj2 (mem_str_In _ _) (proj2 (in_g2_pairs 0 rows cols r c) ltac:(lia))).
+  rewrite (proj2 (mem_str_In _ _) (proj2 (in_g2_pairs 0 rows cols r' c') ltac:(lia))). reflexivity.
+Qed.
+
+Section Grid.
+Variable sqrt_o : Qc -> Qc.
+Variable epsdef : option (Qc * Qc).
+
+(* grid without centres: modules M<r>_<c> row by row, horizontal then vertical
+   nets; for every number of rows and every columns >= 1 *)
+Theorem netgen_grid rows cols area :
+  (1 <= cols)%nat -> Qcltb 0 area = true ->
+  read_netlist sqrt_o epsdef (gen_grid rows cols area None) =
+  Ok (loaded sqrt_o epsdef area (grid_entries rows cols) (grid_wedges rows cols)).
+Proof.
+  intros C A. unfold gen_grid. destruct (Nat.eqb_spec cols 0) as [->|_]; [lia|].
+  unfold grid_modules. rewrite dict_of_list_nodup.
+  2:{ rewrite map_map. cbn [fst]. rewrite pairs_is_from. apply nodup_pairs. }
+  replace (map (fun p => (mname2 (fst p) (snd p), area_entry area)) (pairs rows cols))
+    with (map (entry_tree area) (grid_entries rows cols))
+    by (unfold grid_entries; rewrite map_map; reflexivity).
+  replace (grid_edges rows cols) with (map edge_tree (grid_wedges rows cols)).
+  2:{ unfold grid_edges, grid_wedges. rewrite map_app, !map_flat_map.
+      f_equal; apply flat_map_ext; intro r; rewrite map_map; reflexivity. }
+  apply read_simple; try assumption.
+  - rewrite fst_grid_entries. induction (pairs rows cols) as [|p l IH]; cbn [map forallb]; [reflexivity|].
+    unfold g2 at 1. rewrite mname2_valid. exact IH.
+  - rewrite fst_grid_entries, pairs_is_from. apply nodup_pairs.
+  - rewrite fst_grid_entries. unfold grid_wedges. rewrite forallb_app. apply andb_true_iff. split.
+    + apply forallb_flat_map. intros r R. apply in_seq in R. rewrite forallb_map. apply forallb_seq.
+      intros c I. apply pair_edge2_ok; cbn [fst snd]; lia.
+    + apply forallb_flat_map. intros r R. apply in_seq in R. rewrite forallb_map. apply forallb_seq.
+      intros c I. apply pair_edge2_ok; cbn [fst snd]; lia.
+Qed.
+End Grid.
